@@ -23,4 +23,20 @@ Cfg2 ==
       a1 \in UNION {AwaitAfter(t) : t \in TrigPts}, a2 \in {M("after_START_ACTIVITY", 0)},
       c1 \in BOOLEAN, f \in SUBSET {"h1"}, p \in {<<"START_ACTIVITY", "STOP_ACTIVITY">>, <<"START_ACTIVITY">>}, b \in {{}, {1}} }
 Cfg2Valid == {c \in Cfg2 : c.await["h1"] \in AwaitAfter(c.trig["h1"])}
+
+\* two hooks meeting in one moment: weights on both sides of zero, calls awaited in the same moment at
+\* different weights (one of them deferred from an earlier moment), both possibly failing
+Cfg3 ==
+  { [trig |-> [h \in {"h1", "h2"} |-> IF h = "h1" THEN t1 ELSE t2],
+     await |-> [h \in {"h1", "h2"} |-> IF h = "h1" THEN a1 ELSE a2],
+     crit |-> [h \in {"h1", "h2"} |-> IF h = "h1" THEN c1 ELSE c2],
+     fails |-> f, plan |-> <<"START_ACTIVITY", "STOP_ACTIVITY">>, bodyfails |-> {}, teardown |-> TRUE] :
+      t1 \in {M("before_START_ACTIVITY", 0), M("leave_CONFIGURED", -1)},
+      a1 \in {M("before_START_ACTIVITY", 0), M("leave_CONFIGURED", -1), M("leave_CONFIGURED", 5)},
+      t2 \in {M("leave_CONFIGURED", -1), M("leave_CONFIGURED", 0), M("leave_CONFIGURED", 10), M("enter_RUNNING", 0)},
+      a2 \in {M("leave_CONFIGURED", -1), M("leave_CONFIGURED", 0), M("leave_CONFIGURED", 10), M("enter_RUNNING", 0), M("after_START_ACTIVITY", 0)},
+      c1 \in BOOLEAN, c2 \in BOOLEAN, f \in SUBSET {"h1", "h2"} }
+Cfg3Valid == {c \in Cfg3 : /\ (c.await["h1"] = c.trig["h1"] \/ c.await["h1"] = M("leave_CONFIGURED", 5))
+                           /\ (c.await["h2"] = c.trig["h2"] \/ c.await["h2"] = M("after_START_ACTIVITY", 0))}
+CfgAll == Cfg2Valid \cup Cfg3Valid
 =============================================================================
